@@ -1145,7 +1145,8 @@ def quant_vars(P, R):
             R.undecided('R-ARGS', f.qualname,
                         f'quantified variables from `{au.short(src)}`',
                         'shape of the walk not recognised')
-    R.floor('R-ARGS quantifier arms of BDD.apply', n, 2)
+    # (one call site when the two quantifiers share an arm)
+    R.floor('R-ARGS quantifier arms of BDD.apply', n, 1)
 
 
 def r_quant_vars(P, R):
